@@ -27,6 +27,7 @@ type Engine struct {
 	modsets   map[*ssa.Function]*Modset
 	implCache map[string][]*ssa.Function
 	allFuncs  map[*ssa.Function]bool
+	tables    map[*ssa.Global]tableInfo
 }
 
 // packages whose functions are put under contract
@@ -55,7 +56,7 @@ func loadEngine(repo string) (*Engine, error) {
 	prog, spkgs := ssautil.AllPackages(pkgs, ssa.InstantiateGenerics|ssa.GlobalDebug)
 	prog.Build()
 	eng := &Engine{repo: repo, prog: prog, pkgByPath: map[string]*ssa.Package{}, ppkgs: map[string]*packages.Package{},
-		modsets: map[*ssa.Function]*Modset{}, implCache: map[string][]*ssa.Function{}, contracts: newContracts()}
+		modsets: map[*ssa.Function]*Modset{}, implCache: map[string][]*ssa.Function{}, contracts: newContracts(), tables: map[*ssa.Global]tableInfo{}}
 	for i, p := range spkgs {
 		if p == nil {
 			continue
@@ -219,6 +220,87 @@ func (eng *Engine) implementations(it types.Type, m *types.Func) []*ssa.Function
 	sort.Slice(out, func(i, j int) bool { return out[i].String() < out[j].String() })
 	eng.implCache[key] = out
 	return out
+}
+
+// constTable: the (key, value) constants init stores into a package-level map variable, provided the variable is
+// assigned exactly once (in init, from a fresh map) and the map is updated only there, with constants.
+func (eng *Engine) constTable(g *ssa.Global) ([][2]*ssa.Const, bool) {
+	if r, ok := eng.tables[g]; ok {
+		return r.entries, r.ok
+	}
+	res := tableInfo{}
+	eng.tables[g] = res
+	init := g.Pkg.Func("init")
+	if init == nil {
+		return nil, false
+	}
+	var mk *ssa.MakeMap
+	stores := 0
+	for fn := range eng.allFuncs {
+		for _, b := range fn.Blocks {
+			for _, ins := range b.Instrs {
+				if s, ok := ins.(*ssa.Store); ok && s.Addr == g {
+					stores++
+					if fn != init {
+						return nil, false
+					}
+					m, ok := s.Val.(*ssa.MakeMap)
+					if !ok {
+						return nil, false
+					}
+					mk = m
+				}
+			}
+		}
+	}
+	if stores != 1 || mk == nil {
+		return nil, false
+	}
+	var entries [][2]*ssa.Const
+	for _, ref := range *mk.Referrers() {
+		switch u := ref.(type) {
+		case *ssa.MapUpdate:
+			k, ok1 := u.Key.(*ssa.Const)
+			v, ok2 := u.Value.(*ssa.Const)
+			if !ok1 || !ok2 {
+				return nil, false
+			}
+			entries = append(entries, [2]*ssa.Const{k, v})
+		case *ssa.Store, *ssa.DebugRef:
+		default:
+			return nil, false
+		}
+	}
+	// the map must not be updated through the variable elsewhere: every other use of the global is a load whose
+	// result is only looked up
+	for fn := range eng.allFuncs {
+		if fn == init {
+			continue
+		}
+		for _, b := range fn.Blocks {
+			for _, ins := range b.Instrs {
+				ld, ok := ins.(*ssa.UnOp)
+				if !ok || ld.X != g {
+					continue
+				}
+				for _, ref := range *ld.Referrers() {
+					switch ref.(type) {
+					case *ssa.Lookup, *ssa.DebugRef:
+					default:
+						return nil, false
+					}
+				}
+			}
+		}
+	}
+	res = tableInfo{entries: entries, ok: true}
+	eng.tables[g] = res
+	return entries, true
+}
+
+type tableInfo struct {
+	entries [][2]*ssa.Const
+	ok      bool
 }
 
 // concreteImplementers: the repository's concrete types whose method set satisfies iface
